@@ -271,19 +271,26 @@ def parseBlocks (bytes : List Nat) : P (State × Option (List Nat)) :=
   | .V1 => if c1.isEmpty then .ok (state1, none) else .err
   | _ => State.new c1 false >>= fun (state2, c2) => .ok (state2, some c2)
 
-/-- `parser::parse` -/
-def parse (bytes : List Nat) : P Zone :=
-  parseBlocks bytes >>= fun (state, footer) =>
+/-- the `extra_rule` match of `parse`: only v2+ files have a footer -/
+def parseFooterOpt (footer : Option (List Nat)) (version : Version) : P (Option Rule) :=
+  match footer with
+  | some f => parseFooter f version
+  | none => .ok none
+
+/-- the part of `parser::parse` after the two data blocks have been sliced -/
+def parseRest (state : State) (footer : Option (List Nat)) : P Zone :=
   parseTransitions state.time_size state.header.version
       ((chunks_exact state.time_size state.transition_times).zip state.transition_types) >>= fun transitions =>
   parseTypes state.header.char_count state.names (chunks_exact TYPE_RECORD state.local_time_types) >>= fun types =>
   parseLeaps state.time_size state.header.version
       (chunks_exact (state.time_size + 4) state.leap_seconds) >>= fun leaps =>
   if badIndicators state.header.type_count state.std_walls state.ut_locals then .err else
-  (match footer with
-    | some f => parseFooter f state.header.version
-    | none => .ok none) >>= fun extra_rule =>
+  parseFooterOpt footer state.header.version >>= fun extra_rule =>
   Zone.new transitions types leaps extra_rule
+
+/-- `parser::parse` -/
+def parse (bytes : List Nat) : P Zone :=
+  parseBlocks bytes >>= fun (state, footer) => parseRest state footer
 
 /-- the `Vec::with_capacity` requests `parse` makes before it returns (element counts) -/
 def capacities (bytes : List Nat) : List Nat :=
